@@ -189,7 +189,7 @@ def work_generic(prop, tier, seed, widx, nworkers):
         _tagcount(acc, prog)
         acc.programs += 1
         fts = gen.features(prog)
-        built = harness.Built(prog, events=True, store=(prop == 'C19'))
+        built = harness.Built(prog, events=True, store=(prop == 'C19'), events2=(prop == 'C14' and rng.random() < 0.5))
         vals = rng.sample([0, 1, 2, 3], 2)
         outcomes = {}
         dyn_by_val = {}
@@ -211,6 +211,8 @@ def work_generic(prop, tier, seed, widx, nworkers):
                     case['store'] = True
                     case['write_once'] = False
                     case['gate_saves'] = rng.choice([0.5, 1.0])
+                if getattr(built, 'events2', False):
+                    case['events2'] = True
                 if prop == 'C14' and rng.random() < 0.2:
                     # an artifact store that raises at its k-th save (the event managers do not raise)
                     case['store'] = True
